@@ -486,7 +486,7 @@ impl Prop for C12 {
         // 2 = pop only at the end (the owner calls try_read again before popping)
         c.drop_mode = rng.below(3) as u8;
         c.use_fd0 = rng.chance(1, 400);
-        c.real_socket = rng.chance(1, 40);
+        c.real_socket = rng.chance(1, 100);
         c.low_fd_later = !c.use_fd0 && !c.real_socket && rng.chance(1, 12);
         c.to_json()
     }
